@@ -67,14 +67,15 @@ def _response_obj(media, kind, comps, components_responses, name="R"):
     mt = {} if sch is None else {"schema": sch}
     if media == "xml-then-json":
         return {"description": "d", "content": {"application/xml": copy.deepcopy(mt), "application/json": mt}}
-    if media == "component-ref":
+    if media.startswith("component-ref"):
+        name = media.partition(":")[2] or name        # "component-ref:<name>": several statuses share ONE reusable response
         components_responses[name] = {"description": "d", "content": {"application/json": mt}}
         return {"$ref": f"#/components/responses/{name}"}
     return {"description": "d", "content": {media: mt}}
 
 
 def _eff_media(media):
-    return "application/json" if media in ("xml-then-json", "component-ref") else media
+    return "application/json" if media == "xml-then-json" or media.startswith("component-ref") else media
 
 
 def _mk(table, labels, key):
@@ -117,6 +118,21 @@ def cases(tier):
             if tier == "thorough":
                 yield _mk([b, a], [f"r1={b[0]}:{b[1]}:{kname(b[2])}", f"r2={a[0]}:{a[1]}:{kname(a[2])}"],
                           f"two[{b[1]}/{kname(b[2])}+{a[1]}/{kname(a[2])}]")
+
+
+    # one reusable response documented under several statuses of the same operation
+    for kind in ("model2", "model_ref", ["array", "model_ref"], "str", "enum_str", "date"):
+        for statuses in ((400, 404), (400, 404, 409), (200, 201), ("default", 404), (404, "default")):
+            shared = [(st, "component-ref:Problem", kind) for st in statuses]
+            for lead in ([], [(200, "application/json", "model_ref")], [(204, "none", "no-schema")]):
+                if any(x[0] == st for x in lead for st in statuses):
+                    continue
+                table = lead + shared
+                yield _mk(table, [f"shared-response={kname(kind)}", "statuses=" + ",".join(str(x[0]) for x in table)],
+                          f"shared[{kname(kind)}x{len(statuses)}]")
+            # ... and the other way round: one status between two uses
+            yield _mk([shared[0], (302, "none", "no-schema")] + shared[1:], [f"shared-response={kname(kind)}", "interleaved", "statuses=" + ",".join(map(str, statuses))],
+                      f"shared[{kname(kind)}x{len(statuses)}]")
 
 
 # ------------------------------------------------------------------------------------------------- oracle
